@@ -4,6 +4,7 @@ from . import dynalloc, accept, provenance, dyn
 
 def run(ctx):
     accept.rule_certificate_shapes(ctx)
+    accept.rule_status_certificate_pairing(ctx)
     accept.rule_certificate_completion(ctx)
     accept.rule_every_component_contributes(ctx)
     accept.rule_completion_semantics(ctx)
